@@ -89,10 +89,12 @@ def sec_geom(draw):
 @st.composite
 def sec_nms(draw):
     n = draw(st.integers(0, 8))
+    # pixels, or coordinates normalised to the image (box heights then lie inside the score range)
+    unit = draw(st.sampled_from([1.0, 1.0, 0.01]))
     cx, cy = draw(fl(-200, 200)), draw(fl(-200, 200))
     dets = []
     for _ in range(n):
-        dets.append({"box": {"ctor": "new", "xc": f32(cx + draw(fl(-30, 30))), "yc": f32(cy + draw(fl(-30, 30))), "angle": draw(st.one_of(st.none(), fl(-1.0, 1.0))), "aspect": draw(fl(0.5, 2.0)), "height": draw(fl(10, 60)), "confidence": 1.0},
+        dets.append({"box": {"ctor": "new", "xc": f32(unit * (cx + draw(fl(-30, 30)))), "yc": f32(unit * (cy + draw(fl(-30, 30)))), "angle": draw(st.one_of(st.none(), fl(-1.0, 1.0))), "aspect": draw(fl(0.5, 2.0)), "height": f32(unit * draw(fl(10, 60))), "confidence": 1.0},
                      "score": draw(st.one_of(st.none(), fl(0.05, 0.95), st.sampled_from([0.0, -0.5, -2.0])))})
     return {"kind": "nms", "dets": dets, "nms_threshold": draw(fl(0.1, 0.9)), "score_threshold": draw(st.one_of(st.none(), fl(0.0, 0.9)))}
 
